@@ -28,6 +28,7 @@ import (
 	"time"
 	"unsafe"
 
+	"github.com/plgd-dev/go-coap/v3/message"
 	"github.com/plgd-dev/go-coap/v3/message/codes"
 	"github.com/plgd-dev/go-coap/v3/message/pool"
 	limitparallelrequests "github.com/plgd-dev/go-coap/v3/net/client/limitParallelRequests"
@@ -152,7 +153,7 @@ func newC16Run(tot, epl int64, nk int) *c16Run {
 	for k := 0; k < nk; k++ {
 		h.keyHash = append(h.keyHash, crc64.Checksum([]byte(c16Path(k)), tab))
 	}
-	h.lim = limitparallelrequests.New(tot, epl, h.c16do, nil)
+	h.lim = limitparallelrequests.New(tot, epl, h.c16do, h.c16doObserve)
 	return h
 }
 
@@ -181,7 +182,26 @@ func (h *c16Run) c16do(req *pool.Message) (*pool.Message, error) {
 	}
 	h.totalG.Add(-1)
 	h.gauge[r.key].Add(-1)
+	if r.id%2 == 1 {
+		return nil, errC16Do // the wrapped function fails: the limiter must clean up all the same
+	}
 	return r.resp, nil
+}
+
+var errC16Do = errors.New("c16: wrapped function failed")
+
+type c16Observation struct{}
+
+func (c16Observation) Cancel(context.Context, ...message.Option) error { return nil }
+func (c16Observation) Canceled() bool                                   { return false }
+
+// requests with id%3 == 2 go through DoObserve (same limiter calls, other wrapped function)
+func (h *c16Run) c16doObserve(req *pool.Message, _ func(req *pool.Message)) (limitparallelrequests.Observation, error) {
+	_, err := h.c16do(req)
+	if err != nil {
+		return nil, err
+	}
+	return c16Observation{}, nil
 }
 
 func (h *c16Run) newReq(id, key int, precancelled bool) *c16Req {
@@ -218,9 +238,22 @@ func (h *c16Run) call(r *c16Req) {
 			r.done.Store(c16Bad)
 		}
 	}()
-	resp, err := h.lim.Do(r.msg)
+	var resp *pool.Message
+	var err error
+	viaObserve := r.id%3 == 2
+	if viaObserve {
+		var o limitparallelrequests.Observation
+		o, err = h.lim.DoObserve(r.msg, nil)
+		if _, ok := o.(c16Observation); ok && err == nil {
+			resp = r.resp
+		}
+	} else {
+		resp, err = h.lim.Do(r.msg)
+	}
 	switch {
-	case err == nil && resp == r.resp:
+	case err == nil && resp == r.resp && r.id%2 == 0:
+		r.done.Store(c16DoneOk)
+	case err == errC16Do && resp == nil && r.id%2 == 1: // the wrapped function's own error, passed through unchanged
 		r.done.Store(c16DoneOk)
 	case err != nil && errors.Is(err, context.Canceled) && strings.Contains(err.Error(), "for client endpoint limit"):
 		r.done.Store(c16ErrEp)
